@@ -34,8 +34,15 @@ def _dump(n):
 # ------------------------------------------------------------------ lab.py
 
 def sched_params():
-    out = dict(p_cmp='CmpUnknown', p_dep_guard='false', p_missing='MUnknownMode', p_final='FUnknownFinal', mark='MarkUnknown')
+    out = dict(p_cmp='CmpUnknown', p_dep_guard='false', p_missing='MUnknownMode', p_final='FUnknownFinal', mark='MarkUnknown', failtest='FailTestUnknown')
     lab = _src('lab.py')
+    # which outcomes of runner.wait() does the coordinator book as a failed task?
+    crun = _find(lab, 'TaskCoordinator', 'run')
+    if crun is not None:
+        tests = [n for n in ast.walk(crun) if isinstance(n, ast.If) and isinstance(n.test, ast.Call) and ast.unparse(n.test.func) == 'isinstance'
+                 and len(n.test.args) == 2 and ast.unparse(n.test.args[0]) == 'res' and 'handle_failure' in ast.unparse(ast.Module(body=n.body, type_ignores=[]))]
+        if len(tests) == 1:
+            out['failtest'] = {'BaseException': 'FailBaseException', 'Exception': 'FailException'}.get(ast.unparse(tests[0].test.args[1]), 'FailTestUnknown')
     # complete_task hands the result_meta to every instance, and the setter assigns it, unconditionally?
     ct = _find(lab, 'TaskState', 'complete_task')
     setter = [n for n in _src('tasks.py').body if isinstance(n, ast.FunctionDef) and n.name == '_task_set_result_meta']
@@ -540,6 +547,7 @@ def with_probes():
     _settle(sp, 'p_missing', 'MUnknownMode', probed)
     _settle(sp, 'p_final', 'FUnknownFinal', probed)
     _settle(sp, 'mark', 'MarkUnknown', probed)
+    _settle(sp, 'failtest', 'FailTestUnknown', probed)
     ep = exec_params()
     _settle(ep, 'start', 'StartUnknown', probed)
     _settle(ep, 'ctor', 'CtorUnknown', probed)
@@ -583,7 +591,8 @@ def render():
         'Definition sched_params : params :=',
         '  {| p_cmp := %(p_cmp)s; p_dep_guard := %(p_dep_guard)s; p_missing := %(p_missing)s; p_final := %(p_final)s |}.' % sp,
     ]
-    lines += ['Definition mark_mode_src : mark_mode := %(mark)s.' % sp]
+    lines += ['Definition mark_mode_src : mark_mode := %(mark)s.' % sp,
+              'Definition fail_test_src : fail_test := %(failtest)s.' % sp]
     lines += ['Definition deser_mode_src : deser_mode := %(deser)s.' % vp,
               'Definition setstate_mode_src : setstate_mode := %(setstate)s.' % vp,
               'Definition key_mode_src : key_mode := %(keymode)s.' % vp,
